@@ -198,13 +198,6 @@ fn handle_on_connection(
     remote: SocketAddr,
     s: &TcpSegment,
 ) {
-    // RST trumps all other processing. Tear the connection down and
-    // wake every parked task with ConnectionReset.
-    if s.flags.rst {
-        abort_connection(k, fd);
-        return;
-    }
-
     let state = k
         .lookup(fd)
         .expect("fd present")
@@ -212,6 +205,30 @@ fn handle_on_connection(
         .as_ref()
         .expect("tcb present")
         .state;
+
+    // RST trumps all other processing. Tear the connection down and
+    // wake every parked task with ConnectionReset.
+    if s.flags.rst {
+        match state {
+            // Both FINs are out and the peer's has been received: all
+            // that was still missing is the ACK of ours. A RST now is
+            // the peer — already fully closed, we model no TIME_WAIT —
+            // answering our FIN retransmission because its last ACK was
+            // lost. RFC 793 (LAST-ACK / CLOSING): enter CLOSED, no
+            // "connection reset" signal to the user. Received data
+            // stays readable and the reader still ends in a clean EOF.
+            TcpState::LastAck | TcpState::Closing => {
+                let st = k.lookup_mut(fd).unwrap();
+                st.tcb.as_mut().unwrap().state = TcpState::Closed;
+                st.wake_read();
+                st.wake_write();
+            }
+            // Already closed (cleanly or not): late traffic is ignored.
+            TcpState::Closed => {}
+            _ => abort_connection(k, fd),
+        }
+        return;
+    }
     match state {
         // Client received SYN-ACK. Move to Established and ACK.
         TcpState::SynSent if s.flags.syn && s.flags.ack => {
